@@ -52,6 +52,10 @@ type Spec struct {
 	Form       string // annotated | plain | multi
 	Built      bool   // produced by the repo's xpkg builder (only valid packages)
 	Bulk       int    // KiB of YAML comments padding the stream (a large package: several cache writes)
+	// Nested: the image also carries another package's stream at
+	// deps/x/package.yaml, placed so that a scan of the tarball meets it before
+	// the real /package.yaml (same annotated layer, or an upper layer of a plain image)
+	Nested bool
 }
 
 // Key is a canonical string for the spec.
@@ -64,7 +68,7 @@ func (s Spec) Key() string {
 	for _, d := range s.Deps {
 		ds = append(ds, d.Kind+"="+d.Repo+d.Constraint)
 	}
-	return fmt.Sprintf("%v|%s|%v|%s|%v|%s|%v|%d", s.MetaKinds, s.MetaName, os, s.Crossplane, ds, s.Form, s.Built, s.Bulk)
+	return fmt.Sprintf("%v|%s|%v|%s|%v|%s|%v|%d|%v", s.MetaKinds, s.MetaName, os, s.Crossplane, ds, s.Form, s.Built, s.Bulk, s.Nested)
 }
 
 // ObjectID is the identity (kind/name) the object has in the cluster.
@@ -356,13 +360,32 @@ func Image(s Spec) (ociv1.Image, error) {
 }
 
 func assemble(s Spec) (ociv1.Image, error) {
-	l, err := tarLayer(map[string]string{xpkg.StreamFile: s.Stream()})
+	files := map[string]string{xpkg.StreamFile: s.Stream()}
+	var nested map[string]string
+	if s.Nested && len(s.MetaKinds) > 0 {
+		other := Spec{MetaKinds: s.MetaKinds[:1], MetaName: "nested-" + s.MetaName, Objects: []Obj{{Kind: map[string]string{"Configuration": "XRD"}[s.MetaKinds[0]], Name: "nested"}}}
+		if other.Objects[0].Kind == "" {
+			other.Objects[0].Kind = "CRD"
+		}
+		nested = map[string]string{"deps/x/" + xpkg.StreamFile: other.Stream()}
+		if s.Form != "plain" {
+			files["deps/x/"+xpkg.StreamFile] = other.Stream()
+		}
+	}
+	l, err := tarLayer(files)
 	if err != nil {
 		return nil, err
 	}
 	ann := map[string]string{xpkg.AnnotationKey: xpkg.PackageAnnotation}
 	switch s.Form {
 	case "plain":
+		if nested != nil {
+			up, err := tarLayer(nested)
+			if err != nil {
+				return nil, err
+			}
+			return mutate.AppendLayers(empty.Image, l, up)
+		}
 		return mutate.AppendLayers(empty.Image, l)
 	case "multi":
 		l2, err := tarLayer(map[string]string{xpkg.StreamFile: s.Stream() + "---\napiVersion: v1\nkind: ConfigMap\nmetadata:\n  name: extra\n"})
